@@ -1,6 +1,7 @@
 (* C01 — Relation-based timing: every operation sits where its relation says. *)
 From Coq Require Import ZArith List Bool.
-From QCE Require Import Base.Prelude Core.Model C01.Proofs.
+Import ListNotations.
+From QCE Require Import Base.Prelude Core.Model Core.BfsProofs Core.TimesProofs Core.TimesListing C01.Proofs.
 From Gen Require Import Ident Classes.
 Open Scope Z_scope.
 
@@ -9,5 +10,105 @@ Proof. exact start_from_sound. Qed.
 Theorem C01_relation_equation_unique : forall t rs re d s, rel_eq t rs re s d -> s = start_from t rs re d.
 Proof. exact start_from_unique. Qed.
 
+(* every row of the times table of a graph (any context, any node list with backward references): end = start + duration and
+   the equation of the node's link against the referent's row of the SAME table; no relation = the enclosing circuit's own
+   equation (origin if none); multi-link = FOLLOWED_BY the first of the latest-ending members *)
+Theorem C01_equations : forall env c ns,
+  wf_links (combine (map n_link ns) (map (fun n => dur_of env (n_op n)) ns)) ->
+  forall i n, nth_error ns i = Some n ->
+    let tm := node_times env c ns in
+    let d := dur_of env (n_op n) in
+    snd (nth i tm (0, 0)) = fst (nth i tm (0, 0)) + d /\
+    match n_link n with
+    | LNone | LDangling _ | LMulti [] =>
+        match c with None => fst (nth i tm (0, 0)) = 0 | Some (t, rs, re) => rel_eq t rs re (fst (nth i tm (0, 0))) d end
+    | LRel t p => rel_eq t (fst (nth p tm (0, 0))) (snd (nth p tm (0, 0))) (fst (nth i tm (0, 0))) d
+    | LMulti ps => exists m, multi_first_latest tm ps m /\ fst (nth i tm (0, 0)) = snd (nth m tm (0, 0))
+    end.
+Proof. exact node_times_equations. Qed.
+
+(* ... and it is the only table of that length satisfying them *)
+Theorem C01_unique : forall env c ns tm',
+  wf_links (combine (map n_link ns) (map (fun n => dur_of env (n_op n)) ns)) -> length tm' = length ns ->
+  (forall i n, nth_error ns i = Some n ->
+     snd (nth i tm' (0, 0)) = fst (nth i tm' (0, 0)) + dur_of env (n_op n) /\
+     link_eq c tm' (n_link n) (fst (nth i tm' (0, 0))) (dur_of env (n_op n))) ->
+  tm' = node_times env c ns.
+Proof. exact node_times_unique. Qed.
+
+(* adding an operation (or any number of them) never moves an existing one *)
+Theorem C01_prefix_stable : forall env c ns ms i, (i < length ns)%nat ->
+  nth i (node_times env c (ns ++ ms)) (0, 0) = nth i (node_times env c ns) (0, 0).
+Proof. exact node_times_prefix_stable. Qed.
+Theorem C01_add_keeps_times : forall env c ns o l i, (i < length ns)%nat ->
+  nth i (node_times env c (add_node env ns o l)) (0, 0) = nth i (node_times env c ns) (0, 0).
+Proof. exact add_node_keeps_times. Qed.
+
+(* through nesting: a block carrying no link / FOLLOWED_BY / JOINED_START / a multi-link, in a graph whose own context is of
+   that kind, lists its stand-alone entries shifted by its start in the enclosing table; in general two contexts that place
+   un-related operations T apart give listings T apart *)
+Theorem C01_nested_shift : forall env c ns i n r sub se, wf_node_links ns -> ctx_plain c ->
+  nth_error ns i = Some n -> n_op n = OComp r sub -> wf_links_op (OComp r sub) -> block_link_ok (n_link n) ->
+  let tm := node_times env c ns in
+  listing_op env (OComp r sub) (sub_ctx c tm (n_link n)) (nth i tm (0, 0))
+  = map (eshift (fst (nth i tm (0, 0)))) (listing_op env (OComp r sub) None se).
+Proof. exact listing_block_shift. Qed.
+Theorem C01_context_shift : forall env o, wf_links_op o -> forall c c' T se,
+  (forall d, ctx_start c d = ctx_start c' d + T) ->
+  listing_op env o c (shift T se) = map (eshift T) (listing_op env o c' se).
+Proof. exact listing_shift_gen. Qed.
+
+(* an operation added without a usable relation is placed FOLLOWED_BY the listed channel-sharing node of maximal relation
+   depth (the last one in listing order), at the start of the circuit's context if no listed node shares a channel *)
+Theorem C01_implicit_placement : forall env c ns o l, wf_parents (parents ns) -> implicit_link (length ns) l ->
+  let ns' := add_node env ns o l in
+  let tm' := node_times env c ns' in
+  let d := dur_of env o in
+  match leaf_at_any ns (op_channels o) with
+  | Some i =>
+      nth_error ns' (length ns) = Some (Node (Some i) (LRel RelationType_FOLLOWED_BY i) o) /\
+      (i < length ns)%nat /\
+      nth (length ns) tm' (0, 0) = (snd (nth i tm' (0, 0)), snd (nth i tm' (0, 0)) + d) /\
+      any_match (op_channels o) (node_chans ns i) = true /\
+      (forall j, In j (bfs (parents ns)) -> any_match (op_channels o) (node_chans ns j) = true ->
+                 (depth (parents ns) j <= depth (parents ns) i)%nat)
+  | None =>
+      nth_error ns' (length ns) = Some (Node None LNone o) /\
+      nth (length ns) tm' (0, 0) = (ctx_start c d, ctx_start c d + d) /\
+      (forall j, In j (bfs (parents ns)) -> any_match (op_channels o) (node_chans ns j) = false)
+  end.
+Proof. exact implicit_placement. Qed.
+Theorem C01_explicit_placement : forall env ns o t p, (p < length ns)%nat ->
+  add_node env ns o (LRel t p) = ns ++ [Node (Some p) (LRel t p) o].
+Proof. exact add_node_explicit. Qed.
+
+(* every build program, as built and after the repetitions are unrolled: each listed entry is the row of a leaf node in the
+   table of its (sub-)circuit, computed in the context handed down to it, and all rows of that table satisfy the equations *)
+Theorem C01_program_equations : forall env p e, In e (listing env (run_prog env p)) ->
+  exists c' ns' i n, table_of env None (run_prog env p) c' ns' /\ nth_error ns' i = Some n /\ n_op n = OLeaf (e_leaf e) /\
+                     (e_start e, e_end e) = nth i (node_times env c' ns') (0, 0) /\
+                     node_eqs env c' ns' (node_times env c' ns').
+Proof. exact program_equations. Qed.
+Theorem C01_unrolled_equations : forall env p e, In e (listing env (apply_modifiers env 1 (run_prog env p))) ->
+  exists c' ns' i n, table_of env None (apply_modifiers env 1 (run_prog env p)) c' ns' /\ nth_error ns' i = Some n /\
+                     n_op n = OLeaf (e_leaf e) /\
+                     (e_start e, e_end e) = nth i (node_times env c' ns') (0, 0) /\
+                     node_eqs env c' ns' (node_times env c' ns').
+Proof. exact unrolled_equations. Qed.
+Theorem C01_program_table_unique : forall env p c tm', length tm' = length (run_prog env p) ->
+  node_eqs env c (run_prog env p) tm' -> tm' = node_times env c (run_prog env p).
+Proof. exact program_table_unique. Qed.
+
 Print Assumptions C01_relation_equation_sound.
 Print Assumptions C01_relation_equation_unique.
+Print Assumptions C01_equations.
+Print Assumptions C01_unique.
+Print Assumptions C01_prefix_stable.
+Print Assumptions C01_add_keeps_times.
+Print Assumptions C01_nested_shift.
+Print Assumptions C01_context_shift.
+Print Assumptions C01_implicit_placement.
+Print Assumptions C01_explicit_placement.
+Print Assumptions C01_program_equations.
+Print Assumptions C01_unrolled_equations.
+Print Assumptions C01_program_table_unique.
